@@ -934,6 +934,14 @@ func (hs *clientHandshakeState) doFullHandshake() error {
 		}
 	}
 
+	// RFC 7627: when both sides sent the extended_master_secret extension the
+	// master secret is bound to the session hash, which covers the handshake
+	// up to and including the ClientKeyExchange.
+	var sessionHash []byte
+	if hs.hello.extendedMasterSecret && hs.serverHello.extendedMasterSecret {
+		sessionHash = hs.finishedHash.Sum()
+	}
+
 	if chainToSend != nil && len(chainToSend.Certificate) > 0 {
 		certVerify := &certificateVerifyMsg{}
 
@@ -982,7 +990,11 @@ func (hs *clientHandshakeState) doFullHandshake() error {
 		}
 	}
 
-	hs.masterSecret = masterFromPreMasterSecret(c.vers, hs.suite, hs.preMasterSecret, hs.hello.random, hs.serverHello.random)
+	if sessionHash != nil {
+		hs.masterSecret = extMasterFromPreMasterSecret(c.vers, hs.suite, hs.preMasterSecret, sessionHash)
+	} else {
+		hs.masterSecret = masterFromPreMasterSecret(c.vers, hs.suite, hs.preMasterSecret, hs.hello.random, hs.serverHello.random)
+	}
 	if err := c.config.writeKeyLog(keyLogLabelTLS12, hs.hello.random, hs.masterSecret); err != nil {
 		c.sendAlert(AlertInternalError)
 		return errors.New("tls: failed to write to key log: " + err.Error())
